@@ -10,7 +10,7 @@ import (
 	"verifharness/gal"
 )
 
-const header = "From CSS Require Import Lib.Base Lib.Cases Model.Comb Model.CombCases."
+const header = "From CSS Require Import Lib.Base Lib.Cases Model.Comb Model.CombHeap Model.CombCases."
 
 func comb64(c bruteforcer.UniqueUnorderedCombination) []int64 {
 	r := make([]int64, len(c))
@@ -142,6 +142,11 @@ func main() {
 	seekID(c, 5, 0, 0)
 	seekID(c, -1, 0, 0)
 
+	// ---- programs: results kept across later calls, several iterators, copies ----
+	for i, np := 0, c.Scale(500, 5000); i < np; i++ {
+		program(c, i%2)
+	}
+
 	// ---- flips ----
 	nf := c.Scale(300, 3000)
 	for i := 0; i < nf; i++ {
@@ -149,7 +154,7 @@ func main() {
 	}
 
 	c.Finish("exhaustive walks for 0<=k<=6, k-1<=m<=" + fmt.Sprint(maxM) +
-		" (every Next/GetCombination/GetCombinationID/AmountOfCombinations, digested), plus random (m<=4000,k<=12,C(m+1,k)<2^63) Next/Rank/Seek/Amount and random flips; " +
+		" (every Next/GetCombination/GetCombinationID/AmountOfCombinations, digested), plus random (m<=4000,k<=12,C(m+1,k)<2^63) Next/Rank/Seek/Amount, random flips (strings up to 4001 bits), and programs of 6..35 calls (New/Next/SetCombinationID/GetCombination/GetCombinationUnsafe/Copy/ID/Amount on several iterators, caller writes into returned slices) in which every returned combination is kept and re-read after every later call; " +
 		"a case is non-trivial when k>=1 (walks: >=2 combinations); distinct = distinct Gallina literal")
 }
 
@@ -204,43 +209,16 @@ func iterAt(m int64, s []int64) *bruteforcer.UniqueUnorderedCombinationIterator 
 func walk(c *gal.Ctx, m int64, k int) {
 	it := bruteforcer.NewUniqueUnorderedCombinationIterator(uint64(k), m)
 	amount := it.AmountOfCombinations()
-	h := uint64(0)
 	visited := uint64(0)
 	exhausted := false
-	// oracle state
-	var oc []int64
-	for i := 0; i < k; i++ {
-		oc = append(oc, int64(i))
-	}
-	ocOK := true
-	bad := ""
+	// Every combination the iterator hands out is KEPT, and looked at only after the walk is over:
+	// the i-th recorded combination must still be the i-th k-subset then.
+	var kept []bruteforcer.UniqueUnorderedCombination
+	var ids []uint64
 	for {
-		cmb := comb64(it.GetCombination())
-		id := it.GetCombinationID()
-		for _, v := range cmb {
-			h = gal.DStep(h, uint64(v))
-		}
-		h = gal.DStep(h, id)
-		// oracle: i-th visited is the i-th k-subset in lexicographic order and has ID i
-		if bad == "" {
-			if !ocOK {
-				bad = fmt.Sprintf("visited more combinations than exist (at #%d)", visited)
-			} else if fmt.Sprint(cmb) != fmt.Sprint(oc) {
-				bad = fmt.Sprintf("visit #%d is %v, expected %v", visited, cmb, oc)
-			} else if id != visited {
-				bad = fmt.Sprintf("visit #%d (%v) reports ID %d", visited, cmb, id)
-			}
-		}
+		kept = append(kept, it.GetCombination())
+		ids = append(ids, it.GetCombinationID())
 		visited++
-		if ocOK {
-			var ok bool
-			oc2, ok := oracleNext(m, oc)
-			if ok {
-				oc = oc2
-			} else {
-				ocOK = false
-			}
-		}
 		if !it.Next() {
 			exhausted = true
 			break
@@ -249,8 +227,42 @@ func walk(c *gal.Ctx, m int64, k int) {
 			break
 		}
 	}
+	// oracle state: naive lexicographic enumeration
+	var oc []int64
+	for i := 0; i < k; i++ {
+		oc = append(oc, int64(i))
+	}
+	ocOK := true
+	bad := ""
+	h := uint64(0)
+	for i := range kept {
+		cmb := comb64(kept[i])
+		id := ids[i]
+		for _, v := range cmb {
+			h = gal.DStep(h, uint64(v))
+		}
+		h = gal.DStep(h, id)
+		// oracle: i-th visited is the i-th k-subset in lexicographic order and has ID i
+		if bad == "" {
+			if !ocOK {
+				bad = fmt.Sprintf("visited more combinations than exist (at #%d)", i)
+			} else if fmt.Sprint(cmb) != fmt.Sprint(oc) {
+				bad = fmt.Sprintf("the combination recorded at visit #%d reads %v after the walk, the #%d-th %d-subset of {0..%d} is %v", i, cmb, i, k, m, oc)
+			} else if id != uint64(i) {
+				bad = fmt.Sprintf("visit #%d (%v) reports ID %d", i, cmb, id)
+			}
+		}
+		if ocOK {
+			oc2, ok := oracleNext(m, oc)
+			if ok {
+				oc = oc2
+			} else {
+				ocOK = false
+			}
+		}
+	}
 	want := new(big.Int).Binomial(m+1, int64(k))
-	if bad == "" && ocOK {
+	if bad == "" && ocOK && exhausted {
 		bad = fmt.Sprintf("exhaustion reported after %d combinations but more exist (next would be %v)", visited, oc)
 	}
 	if bad == "" && want.IsUint64() && (want.Uint64() != visited || amount != visited) {
@@ -261,7 +273,7 @@ func walk(c *gal.Ctx, m int64, k int) {
 	stepsTotal += visited
 	c.Rep.Extra["iterator_steps"] = stepsTotal
 	if bad != "" {
-		c.OracleFail(idx, "enumeration: "+bad, "pkg/bruteforcer/indexes.go:next/getCombinationID", d)
+		c.OracleFail(idx, fmt.Sprintf("enumeration of %d-subsets of {0..%d}: ", k, m)+bad, "pkg/bruteforcer/indexes.go:next/getCombinationID/GetCombination", d)
 	} else {
 		c.OracleOK()
 	}
@@ -407,7 +419,7 @@ func flips(c *gal.Ctx) {
 			exp[i] = !exp[i]
 		}
 		if fmt.Sprint(exp) != fmt.Sprint(once) || fmt.Sprint(v) != fmt.Sprint(orig) {
-			c.OracleFail(idx, "ApplyBitFlipsBools does not flip exactly the addressed items / is not an involution", "pkg/bruteforcer/indexes.go:ApplyBitFlipsBools", d)
+			c.OracleFail(idx, fmt.Sprintf("ApplyBitFlipsBools(%v) on %d bools: %s", s, nbits, flipDiff(boolBits(orig), boolBits(exp), boolBits(once), boolBits(v))), "pkg/bruteforcer/indexes.go:ApplyBitFlipsBools", d)
 		} else {
 			c.OracleOK()
 		}
@@ -426,9 +438,320 @@ func flips(c *gal.Ctx) {
 			exp[i/8] ^= 1 << uint(i%8)
 		}
 		if fmt.Sprint(exp) != fmt.Sprint(once) || fmt.Sprint(v) != fmt.Sprint(orig) {
-			c.OracleFail(idx, "ApplyBitFlipsBytes does not flip exactly the addressed bits / is not an involution", "pkg/bruteforcer/indexes.go:ApplyBitFlipsBytes", d)
+			c.OracleFail(idx, fmt.Sprintf("ApplyBitFlipsBytes(%v) on %d bytes: %s", s, nbytes, flipDiff(byteBits(orig), byteBits(exp), byteBits(once), byteBits(v))), "pkg/bruteforcer/indexes.go:ApplyBitFlipsBytes", d)
 		} else {
 			c.OracleOK()
 		}
+	}
+}
+
+func boolBits(v []bool) []bool { return v }
+
+func byteBits(v []byte) []bool {
+	r := make([]bool, 8*len(v))
+	for i := range r {
+		r[i] = v[i/8]>>uint(i%8)&1 == 1
+	}
+	return r
+}
+
+// which bit positions changed, against which should have
+func flipDiff(orig, exp, once, twice []bool) string {
+	var flipped, want []int
+	for i := range orig {
+		if once[i] != orig[i] {
+			flipped = append(flipped, i)
+		}
+		if exp[i] != orig[i] {
+			want = append(want, i)
+		}
+	}
+	if fmt.Sprint(flipped) != fmt.Sprint(want) {
+		return fmt.Sprintf("one application changed bit positions %v, the addressed positions are %v", flipped, want)
+	}
+	var left []int
+	for i := range orig {
+		if twice[i] != orig[i] {
+			left = append(left, i)
+		}
+	}
+	return fmt.Sprintf("applying it twice does not restore the original (positions %v differ)", left)
+}
+
+// ---------- programs: several iterators, results kept across later calls ----------
+//
+// A program is a sequence of calls on iterators and on the combinations they returned (the op
+// language of Model/CombHeap.v).  The harness keeps EVERY slice it was handed and reads all of
+// them again after every later call.  The oracle knows, from the property text only, where each
+// iterator stands (first combination, lexicographic successor, the id-th combination after a
+// seek, the source's position for a copy) and what each kept combination must read: the
+// combination the iterator stood at when GetCombination was called - whatever happened since.
+
+type pIter struct {
+	it   *bruteforcer.UniqueUnorderedCombinationIterator
+	m    int64
+	k    int
+	exp  []int64 // where the iterator stands according to the oracle; nil = unspecified (after exhaustion / after the caller scribbled an invalid tuple through the unsafe slice)
+	born int
+}
+
+type pRes struct {
+	s    bruteforcer.UniqueUnorderedCombination
+	live int     // -1: returned by GetCombination (the caller's own copy); else the iterator whose GetCombinationUnsafe returned it
+	exp  []int64 // what it must read (own copies only)
+	born int     // index of the op that returned it
+	from int
+}
+
+// the id-th k-subset of {0..m} in lexicographic order
+func unrankC(m int64, k int, id uint64) []int64 {
+	r := make([]int64, 0, k)
+	rem := new(big.Int).SetUint64(id)
+	v := int64(0)
+	for i := 0; i < k; i++ {
+		for {
+			cnt := new(big.Int).Binomial(m-v, int64(k-1-i)) // element i = v, the rest from {v+1..m}
+			if m-v < int64(k-1-i) {
+				cnt.SetInt64(0)
+			}
+			if rem.Cmp(cnt) < 0 {
+				break
+			}
+			rem.Sub(rem, cnt)
+			v++
+			if v > m+1 {
+				return nil
+			}
+		}
+		r = append(r, v)
+		v++
+	}
+	return r
+}
+
+func progMK(c *gal.Ctx) (int64, int) {
+	for {
+		var m int64
+		var k int
+		switch c.Rng.Intn(10) {
+		case 0:
+			m, k = int64(c.Rng.Intn(300)), 1+c.Rng.Intn(4)
+		case 1:
+			m, k = int64(10+c.Rng.Intn(8)), 9+c.Rng.Intn(4) // k beyond the lookup table
+		case 2:
+			m, k = int64(995+c.Rng.Intn(10)), 1+c.Rng.Intn(2) // m around the lookup table
+		case 3:
+			k = c.Rng.Intn(3)
+			m = int64(k) - 1 + int64(c.Rng.Intn(2)) // k = m+1 (one combination) and k = 0
+		default:
+			m, k = int64(c.Rng.Intn(30)), c.Rng.Intn(7)
+		}
+		if int64(k) > m+1 || m < 0 && k > 0 {
+			continue
+		}
+		if new(big.Int).Binomial(m+1, int64(k)).BitLen() > 40 {
+			continue
+		}
+		return m, k
+	}
+}
+
+func program(c *gal.Ctx, style int) {
+	nops := 6 + c.Rng.Intn(30)
+	var its []*pIter
+	var res []*pRes
+	var ops, evs, descr []string
+	bad := ""
+	site := "pkg/bruteforcer/indexes.go:UniqueUnorderedCombinationIterator"
+	fail := func(format string, a ...interface{}) {
+		if bad == "" {
+			bad = fmt.Sprintf(format, a...)
+		}
+	}
+	panicked := false
+	peek := func(p *pIter) []int64 { return comb64(p.it.GetCombinationUnsafe()) }
+	for n := 0; n < nops && !panicked; n++ {
+		var op, ev, d string
+		kind := c.Rng.Intn(100)
+		if len(its) == 0 {
+			kind = 0
+		}
+		var pi *pIter
+		i := 0
+		if len(its) > 0 {
+			i = c.Rng.Intn(len(its))
+			if style == 1 && c.Rng.Intn(3) != 0 { // mostly the youngest two iterators: an iterator and its copy
+				i = len(its) - 1 - c.Rng.Intn(2)
+				if i < 0 {
+					i = 0
+				}
+			}
+			pi = its[i]
+		}
+		isPanic, _ := gal.Recover(func() {
+			switch {
+			case kind < 6 || (kind < 10 && len(its) < 2): // New
+				m, k := progMK(c)
+				p := &pIter{it: bruteforcer.NewUniqueUnorderedCombinationIterator(uint64(k), m), m: m, k: k, born: n}
+				for x := 0; x < k; x++ {
+					p.exp = append(p.exp, int64(x))
+				}
+				its = append(its, p)
+				op, ev, d = fmt.Sprintf("ONew %s %s", gal.Nat(k), gal.Z(m)), "ENone", fmt.Sprintf("it%d := New(k=%d, m=%d)", len(its)-1, k, m)
+			case kind < 34: // Next
+				more := pi.it.Next()
+				op, ev, d = fmt.Sprintf("ONext %s", gal.Nat(i)), "(EBool "+gal.Bool(more)+")", fmt.Sprintf("it%d.Next()", i)
+				if pi.exp != nil {
+					succ, ok := oracleNext(pi.m, pi.exp)
+					if ok != more {
+						fail("op #%d it%d.Next() at %v (m=%d) returned %v, a lexicographic successor exists: %v", n, i, pi.exp, pi.m, more, ok)
+					}
+					if ok {
+						pi.exp = succ
+					} else {
+						pi.exp = nil
+					}
+				}
+			case kind < 48: // Seek
+				amt := new(big.Int).Binomial(pi.m+1, int64(pi.k))
+				id := uint64(0)
+				if amt.Sign() > 0 {
+					switch c.Rng.Intn(5) {
+					case 0:
+						id = 0
+					case 1:
+						id = amt.Uint64() - 1
+					default:
+						id = uint64(c.Rng.Int63n(int64(amt.Uint64())))
+					}
+				}
+				pi.it.SetCombinationID(id)
+				op, ev, d = fmt.Sprintf("OSeek %s %s", gal.Nat(i), gal.U(id)), "ENone", fmt.Sprintf("it%d.SetCombinationID(%d)", i, id)
+				pi.exp = unrankC(pi.m, pi.k, id)
+			case kind < 72: // GetCombination: kept
+				r := &pRes{s: pi.it.GetCombination(), live: -1, born: n, from: i}
+				r.exp = comb64(r.s) // snapshot taken by the harness at return time
+				if pi.exp != nil && fmt.Sprint(pi.exp) != fmt.Sprint(r.exp) {
+					fail("op #%d it%d.GetCombination() returned %v, the iterator stands at %v", n, i, r.exp, pi.exp)
+				}
+				res = append(res, r)
+				op, ev, d = fmt.Sprintf("OGet %s", gal.Nat(i)), "ENone", fmt.Sprintf("r%d := it%d.GetCombination()", len(res)-1, i)
+			case kind < 76: // GetCombinationUnsafe: the live slice
+				res = append(res, &pRes{s: pi.it.GetCombinationUnsafe(), live: i, born: n, from: i})
+				op, ev, d = fmt.Sprintf("OGetUnsafe %s", gal.Nat(i)), "ENone", fmt.Sprintf("r%d := it%d.GetCombinationUnsafe()", len(res)-1, i)
+			case kind < 86: // Copy
+				p := &pIter{it: pi.it.Copy(), m: pi.m, k: pi.k, born: n}
+				if pi.exp != nil {
+					p.exp = append([]int64{}, pi.exp...)
+				} else if got := peek(p); fmt.Sprint(got) != fmt.Sprint(peek(pi)) {
+					fail("op #%d it%d.Copy() stands at %v, the source at %v", n, i, got, peek(pi))
+				}
+				its = append(its, p)
+				op, ev, d = fmt.Sprintf("OCopy %s", gal.Nat(i)), "ENone", fmt.Sprintf("it%d := it%d.Copy()", len(its)-1, i)
+			case kind < 92 && len(res) > 0: // the caller writes into a combination it was handed
+				ri := c.Rng.Intn(len(res))
+				r := res[ri]
+				if len(r.s) == 0 {
+					op, ev, d = fmt.Sprintf("OAmount %s", gal.Nat(i)), "(EZ "+gal.U(pi.it.AmountOfCombinations())+")", fmt.Sprintf("it%d.AmountOfCombinations()", i)
+					break
+				}
+				j := c.Rng.Intn(len(r.s))
+				var v int64
+				if r.live >= 0 {
+					// keep the iterator's tuple mostly valid: a value between the neighbours
+					p := its[r.live]
+					lo, hi := int64(0), p.m
+					if j > 0 {
+						lo = int64(r.s[j-1]) + 1
+					}
+					if j+1 < len(r.s) {
+						hi = int64(r.s[j+1]) - 1
+					}
+					if lo <= hi && c.Rng.Intn(5) != 0 {
+						v = lo + c.Rng.Int63n(hi-lo+1)
+					} else {
+						v = c.Rng.Int63n(p.m + 1)
+					}
+				} else {
+					v = int64(c.Rng.Intn(41)) - 3
+				}
+				r.s[j] = bruteforcer.Value(v)
+				op, ev, d = fmt.Sprintf("OWrite %s %s %s", gal.Nat(ri), gal.Nat(j), gal.Z(v)), "ENone", fmt.Sprintf("r%d[%d] = %d", ri, j, v)
+				if r.live < 0 {
+					r.exp[j] = v
+				} else if p := its[r.live]; p.exp != nil {
+					p.exp[j] = v
+					if !valid(p.m, p.exp) {
+						p.exp = nil
+					}
+				}
+			case kind < 96: // ID
+				id := pi.it.GetCombinationID()
+				op, ev, d = fmt.Sprintf("OID %s", gal.Nat(i)), "(EZ "+gal.U(id)+")", fmt.Sprintf("it%d.GetCombinationID()", i)
+				if pi.exp != nil {
+					if want := oracleRank(pi.m, pi.exp); !want.IsUint64() || want.Uint64() != id {
+						fail("op #%d it%d.GetCombinationID() at %v (m=%d) = %d, it is combination #%s", n, i, pi.exp, pi.m, id, want)
+					}
+				}
+			default:
+				a := pi.it.AmountOfCombinations()
+				op, ev, d = fmt.Sprintf("OAmount %s", gal.Nat(i)), "(EZ "+gal.U(a)+")", fmt.Sprintf("it%d.AmountOfCombinations()", i)
+				if want := new(big.Int).Binomial(pi.m+1, int64(pi.k)); !want.IsUint64() || want.Uint64() != a {
+					fail("op #%d it%d.AmountOfCombinations() = %d, C(%d,%d) = %s", n, i, a, pi.m+1, pi.k, want)
+				}
+			}
+		})
+		if isPanic {
+			panicked = true
+			fail("op #%d panicked", n)
+			descr = append(descr, "<panic>")
+			break
+		}
+		ops, evs, descr = append(ops, op), append(evs, ev), append(descr, d)
+		// after EVERY call: all kept combinations still read what they read when they were returned,
+		// every iterator stands where the oracle says, live slices show their iterator's position
+		for ri, r := range res {
+			got := comb64(r.s)
+			if r.live < 0 {
+				if fmt.Sprint(got) != fmt.Sprint(r.exp) {
+					fail("r%d, returned by it%d.GetCombination() in op #%d, read %v then and reads %v after op #%d (%s)", ri, r.from, r.born, r.exp, got, n, d)
+				}
+			} else if fmt.Sprint(got) != fmt.Sprint(peek(its[r.live])) {
+				fail("r%d = it%d.GetCombinationUnsafe() reads %v, the iterator stands at %v after op #%d (%s)", ri, r.live, got, peek(its[r.live]), n, d)
+			}
+		}
+		for ii, p := range its {
+			if p.exp != nil {
+				if got := peek(p); fmt.Sprint(got) != fmt.Sprint(p.exp) {
+					fail("it%d (k=%d, m=%d) stands at %v after op #%d (%s), expected %v", ii, p.k, p.m, got, n, d, p.exp)
+					p.exp = nil
+				}
+			}
+		}
+	}
+	// what the caller reads at the very end
+	var finalRes, finalIts []string
+	for _, r := range res {
+		finalRes = append(finalRes, gal.ZList64(comb64(r.s)))
+	}
+	for _, p := range its {
+		finalIts = append(finalIts, gal.ZList64(peek(p)))
+	}
+	obs := "OPanic"
+	if !panicked {
+		obs = "(OOk " + gal.Pair(gal.Pair(gal.List(evs), gal.List(finalRes)), gal.List(finalIts)) + ")"
+	}
+	input := map[string]interface{}{"op": "program", "calls": descr}
+	nontriv := false
+	for _, r := range res {
+		if r.live < 0 && len(r.s) > 0 && r.born < len(ops)-1 {
+			nontriv = true
+		}
+	}
+	idx := c.Add("program", fmt.Sprintf("CProg %s %s", gal.List(ops), obs), input, nontriv)
+	if bad != "" {
+		c.OracleFail(idx, "kept combinations / independent iterators: "+bad+"; calls: "+fmt.Sprint(descr), site, input)
+	} else {
+		c.OracleOK()
 	}
 }
